@@ -15,6 +15,8 @@ of minimising calls, each made on the object the previous call returned and judg
 object's definition (a result must not carry anything that changes what the next call on it does).  PART_REFINE: the real `PartitionRefinement`
 vs. the model's `Part.refine`, on random histories and on every refine call logged inside
 the real `_minify` (partition as a set of sets and returned pairs after every call).
+Round 7 (`deep_family`, harness/dfa_min_deep.py): sources with 1100–3000+ states, every minimising operation, judged by
+closed form (no model round trip); see the comment above `DEEP_TIMEOUT_S`.
 """
 from __future__ import annotations
 
@@ -23,7 +25,7 @@ import json
 from automata.fa.dfa import DFA
 
 from harness import gen, langoracle
-from harness.common import guarded, Ctx, Names, Toks, call, enc_dfa, toks
+from harness.common import guarded, Ctx, InfraError, Names, Toks, call, enc_dfa, toks
 from harness.dfaops_common import (check_valid, lang_mismatch, parse_canon, py_canon, render_block)
 from harness.ops.C04 import reachable_count
 
@@ -41,6 +43,17 @@ RULE = ("cases = (DFA, retain_names) for minify(), plus minify=True paths of uni
         "retain_names values in every position) each made on THE OBJECT the previous call returned (or a copy / a rebuilt "
         "DFA), every call judged — incl. the exact retained names — against the object it was made on (all pairs of calls on 4 "
         "fixed DFAs, then random); "
+        "DEEP / LARGE sources (round 7, harness/dfa_min_deep.py): 8 sources with 1100–3000+ states per run built from JSON "
+        "specs by the real constructors — DFA.of_length (bounded window, and unbounded: chain ending in a self-loop), "
+        "DFA.from_finite_language with a 1500-symbol word, hand-written chains in which every state has an equivalent twin "
+        "(followed by 150–400 dead positions, declared partial; or by 1100+ dead positions and a trap, declared complete), 2–3 "
+        "copies of a cycle of 1100–1400 states, 30–50 copies of a cycle of 50–60, an NFA with two states per position — "
+        "and minify / to_partial / complement / union / intersection / difference / symmetric_difference (minify=True, second "
+        "operand large too) / DFA.from_nfa(minify=True) called on them with retain_names both ways (≈ 48 calls, every one of "
+        "the eight operations at least once per run); judged by CLOSED FORM (language by a complete linear walk against the "
+        "canonical automaton + real accepts_input on words around the thresholds, exact state count = closed-form Nerode "
+        "index / live classes, no dead state, minimal-again, exact retained names), no model round trip; each spec also at "
+        "≤ 12 states judged by the closed form AND the brute-force oracles; "
         "non-trivial = source has ≥3 reachable "
         "states and minimisation merges or removes at least one of them; distinct = distinct encoded sources")
 ASSUMPTIONS = [
@@ -51,7 +64,12 @@ ASSUMPTIONS = [
     "definition as built",
 ]
 EXPLANATION = ("Theorems C05_* (Props/C05.lean) are about the model of _minify; this run ties the model to the code and "
-               "evaluates language preservation and exact minimality on the real results with independent oracles.")
+               "evaluates language preservation and exact minimality on the real results with independent oracles.  "
+               "Size: the theorems hold for automata of every size; the correspondence runs stay at ≤ 14 states, and the deep / "
+               "large family checks the property itself on sources with 1100–3000+ states against closed-form languages "
+               "(no model round trip there — the model's driver would need minutes), so a change that is only wrong beyond a "
+               "size threshold (recursion depth, bounded work-list, fixed-size cache or buffer, super-linear copy) is observed "
+               "as a wrong result, an exception or a watchdog timeout with a replay.")
 
 
 # ------------------------------------------------------------------ PartitionRefinement ↔ Part.refine
@@ -582,8 +600,412 @@ def run_mutable_option(ctx: Ctx, n: int):
         do_mutable_sequence(ctx, d, b, pre, steps, on, "mutable_option_sequence")
 
 
+# ------------------------------------------------------------------ round 7: DEEP / LARGE sources (1100–3000 states)
+# Everything above stays at ≤ 14 states.  The property is about every valid DFA, so a `_minify` / pre-pass /
+# `PartitionRefinement` / `_expand_dfa` / `_bfs_*` that is only right below a SIZE THRESHOLD (recursion instead of a
+# loop: RecursionError near depth 1000; a work-list cut off after N rounds; a cache with 128 slots; a fixed-size buffer;
+# a quadratic copy that no longer answers) is invisible to them.  This family builds sources with 1100–3000 states
+# from small JSON specs through the real constructors (harness/dfa_min_deep.py): DFA.of_length chains (bounded and
+# ending in a self-loop), DFA.from_finite_language with words of 1500 symbols, hand-written chains in which EVERY state
+# has an equivalent twin (so merging really happens at depth), optionally followed by a chain of hundreds of dead states
+# (declared partial: the pre-pass must drop them; declared complete with a trap: Hopcroft must merge them into ONE
+# class), k copies of a cycle of 1100+ states, 40 copies of a cycle of 60, and an NFA with two states per position.
+# Every minimising operation the property names is called on them — minify, to_partial, complement(minify=True),
+# union / intersection / difference / symmetric_difference(minify=True) with a second large operand,
+# DFA.from_nfa(minify=True) — with retain_names both ways.  The language of every result is known in CLOSED FORM from
+# the construction parameters (length sets closed under the Boolean operations, a count modulo c, an explicit finite
+# set), so the judge needs neither the library's algorithms nor the Lean model (NO model round trip:
+# `deep:closed_form_oracle_no_model_round_trip`): result validates; its table accepts exactly the closed-form
+# language (linear bisimulation walk against the canonical minimal automaton — complete, not sampled); real
+# accepts_input agrees with the membership predicate on words around the thresholds (lengths K-1, K, K+1, 990–1025,
+# 2048, K+1000); the number of states is the closed-form Nerode index (complete result) / number of live classes, ≥ 1
+# (partial result); a partial result has no dead state; minimising the result again keeps its size and, with
+# retain_names, names every state by its singleton; retained names are EXACTLY the closed-form classes (pairs {2p,2p+1};
+# the k states at one cycle position; one class holding all dead states and the trap; singletons for sources that are
+# already minimal).  The closed forms are tied to the real objects twice: the same walk on every SOURCE as built, and
+# `deep_small_twin`: the same specs scaled down to ≤ 12 states, judged by the closed form AND by this module's existing
+# brute-force oracles (`do_minify` / `via_op_case`: product search, independent Moore refinement, model round trip) —
+# disagreement between the two oracles is an InfraError.  A failing call is re-confirmed on newly built objects (alone,
+# else after the calls that preceded it on the same object) before it is reported; every call runs under a watchdog,
+# so "no answer within DEEP_TIMEOUT_S" is an observation with a replay like any other.
+DEEP_TIMEOUT_S = 20
+DEEP_BOOL = {"union": lambda x, y: x or y, "inter": lambda x, y: x and y, "diff": lambda x, y: x and not y,
+             "symm": lambda x, y: x != y}
+DEEP_METHOD = {"union": "union", "inter": "intersection", "diff": "difference", "symm": "symmetric_difference"}
+
+
+def deep_show_call(c: dict) -> str:
+    op, r = c["op"], c["retain"]
+    if op == "minify":
+        return f"minify(retain_names={r})"
+    if op in ("to_partial", "complement"):
+        return f"{op}(retain_names={r}, minify=True)"
+    if op == "from_nfa":
+        return f"DFA.from_nfa(N, retain_names={r}, minify=True)"
+    return f"{DEEP_METHOD[op]}(B, retain_names={r}, minify=True)"
+
+
+def deep_invoke(src, B, c: dict):
+    """The real call, under the watchdog: ("ok", DFA) / ("err", class name) / ("err", "_Timeout")."""
+    from harness import dfa_query_lib as QL
+    op, r = c["op"], c["retain"]
+    if op == "minify":
+        f = lambda: src.minify(retain_names=r)  # noqa: E731
+    elif op == "to_partial":
+        f = lambda: src.to_partial(retain_names=r, minify=True)  # noqa: E731
+    elif op == "complement":
+        f = lambda: src.complement(retain_names=r, minify=True)  # noqa: E731
+    elif op == "from_nfa":
+        f = lambda: DFA.from_nfa(src, retain_names=r, minify=True)  # noqa: E731
+    else:
+        f = lambda: getattr(src, DEEP_METHOD[op])(B, retain_names=r, minify=True)  # noqa: E731
+    return QL.guarded(f, DEEP_TIMEOUT_S)
+
+
+def deep_result_lang(spec: dict, c: dict):
+    from harness import dfa_min_deep as MD
+    L = MD.lang_of(spec)
+    if c["op"] == "complement":
+        return L.complement()
+    if c["op"] in DEEP_BOOL:
+        return L.combine(MD.lang_of(c["B"]), DEEP_BOOL[c["op"]])
+    return L
+
+
+def deep_expected_names(spec: dict, c: dict, src):
+    """Closed-form retained names (None: not fixed by the construction — Boolean operations name classes by pairs
+    that involve the operands' trap names, complement of a partial source involves to_complete's trap name)."""
+    from harness import dfa_min_deep as MD
+    if not c["retain"]:
+        return None
+    op = c["op"]
+    names = MD.expected_names(spec, op)
+    if names is not None or op in DEEP_BOOL or op == "from_nfa":
+        return names
+    if spec["kind"] in ("of_length", "finite_language"):
+        # constructor-built sources are already minimal when their size is the closed-form index: every class is a singleton
+        cls, live = MD.lang_of(spec).index()
+        partial = any(len(row) != len(src.input_symbols) for row in src.transitions.values())
+        if len(src.states) != (max(1, live) if partial else cls):
+            return None
+        dead = _deep_dead(src)
+        if op == "to_partial" or (op == "minify" and src.allow_partial):
+            return {frozenset({q}) for q in src.states if q not in dead or q == src.initial_state}
+        if op == "minify" or (op == "complement" and not partial):
+            return {frozenset({q}) for q in src.states}
+    return None
+
+
+def _deep_dead(d) -> set:
+    rev = {}
+    for q, row in d.transitions.items():
+        for t in row.values():
+            rev.setdefault(t, []).append(q)
+    live = set(d.final_states)
+    work = list(live)
+    while work:
+        t = work.pop()
+        for q in rev.get(t, ()):
+            if q not in live:
+                live.add(q)
+                work.append(q)
+    return set(d.states) - live
+
+
+def deep_judge_result(spec: dict, c: dict, src, res, rng):
+    """None, or what is wrong with the observation `res` of the call `c` on the source built from `spec`."""
+    from harness import dfa_min_deep as MD
+    from harness import dfa_query_lib as QL
+    if res[0] == "err":
+        if res[1] == "_Timeout":
+            return f"gave no answer within {DEEP_TIMEOUT_S} s"
+        return f"raised {res[1]}"
+    R = res[1]
+    if not isinstance(R, DFA):
+        return f"returned {type(R).__name__}, not a DFA"
+    bad = check_valid(R)
+    if bad:
+        return f"result does not validate ({bad})"
+    L = deep_result_lang(spec, c)
+    w = MD.bisim_counterexample(R, L)
+    if w is not None:
+        real = call(lambda: R.accepts_input(w))
+        return (f"result's language is wrong: on {MD.short(w)} the result answers {real[1]!r} "
+                f"(its table: {'accept' if not L.member(w) else 'reject'}), the language dictates {L.member(w)}")
+    for w in L.probe(rng):
+        real = QL.guarded(lambda: R.accepts_input(w), DEEP_TIMEOUT_S)
+        if real != ("ok", L.member(w)):
+            return f"result.accepts_input({MD.short(w)}) = {real[1]!r}, the language dictates {L.member(w)}"
+    n_cls, n_live = L.index()
+    partial = any(len(row) != len(R.input_symbols) for row in R.transitions.values())
+    want = max(1, n_live) if partial else n_cls
+    if len(R.states) != want:
+        return (f"{'partial' if partial else 'complete'} result has {len(R.states)} states, the minimum is {want} "
+                f"(closed form: Nerode index {n_cls}, live classes {n_live})")
+    if partial and len(R.states) > 1 and MD.dead_state_count(R):
+        return "partial result keeps a dead state"
+    if partial != bool(R.allow_partial) and partial:
+        return "result with missing transitions is not declared partial"
+    # idempotence: with the flag of the call — plain: same size; retain_names: same size, every state named by its singleton
+    again = QL.guarded(lambda: R.minify(retain_names=c["retain"]), DEEP_TIMEOUT_S)
+    if again[0] == "err" or len(again[1].states) != len(R.states):
+        return (f"minimising the minimal result ({len(R.states)} states) "
+                + (f"raised {again[1]}" if again[0] == "err" else f"gives {len(again[1].states)} states"))
+    if c["retain"] and set(again[1].states) != {frozenset({q}) for q in R.states}:
+        return "minimising the minimal result with retain_names=True does not name every state by its singleton"
+    exp = deep_expected_names(spec, c, src)
+    if exp is not None:
+        names = set(R.states)
+        if names != exp:
+            extra, missing = names - exp, exp - names
+            return (f"retained names are not exactly the classes of merged source states: {len(names)} names, {len(exp)} classes; "
+                    f"unexpected {MD.short(sorted(extra, key=repr)[:3])}, missing {MD.short(sorted(missing, key=repr)[:3])}")
+    elif c["retain"] and (n_cls, n_live) != (1, 0):
+        # (empty result language: `_minify` returns empty_language(...) whose state is 0 — known finding F16, reported by
+        # the small-instance generators; not judged again here)
+        names = list(R.states)
+        if not all(isinstance(x, frozenset) and x for x in names) or sum(len(x) for x in names) != len(frozenset().union(*names)):
+            return "retained names are not pairwise disjoint non-empty sets"
+    return None
+
+
+def deep_run_calls(spec: dict, calls, rng, built=None):
+    """All `calls` on ONE source object (and one B per distinct B spec); (index, message) of the first wrong one."""
+    from harness import dfa_min_deep as MD
+    src = built if built is not None else MD.build(spec)
+    Bs = {}
+    for i, c in enumerate(calls):
+        B = None
+        if c.get("B") is not None:
+            key = json.dumps(c["B"], sort_keys=True)
+            if key not in Bs:
+                Bs[key] = MD.build(c["B"])
+            B = Bs[key]
+        msg = deep_judge_result(spec, c, src, deep_invoke(src, B, c), rng)
+        if msg is not None:
+            return i, msg
+    return None
+
+
+def deep_what(spec: dict, calls, msg: str) -> str:
+    from harness import dfa_min_deep as MD
+    c = calls[-1]
+    hist = "; ".join(deep_show_call(x) for x in calls[:-1])
+    return (f"{deep_show_call(c)} {msg} — source ({MD.n_states(spec)} states): {MD.expr(spec)}"
+            + (f"; B ({MD.n_states(c['B'])} states): {MD.expr(c['B'])}" if c.get("B") is not None else "")
+            + (f"; called on ONE object after [{hist}]" if hist else ""))
+
+
+def deep_source_selfcheck(ctx: Ctx, spec: dict, src) -> bool:
+    """The closed form vs the object as built: complete walk of a DFA's table, boundary words through accepts_input."""
+    from harness import dfa_min_deep as MD
+    L = MD.lang_of(spec)
+    w = MD.bisim_counterexample(src, L) if isinstance(src, DFA) else None
+    if w is None:
+        for x in L.probe(ctx.rng):
+            ctx.stat("deep:selfcheck_words_through_accepts_input")
+            if call(lambda: src.accepts_input(x)) != ("ok", L.member(x)):
+                w = x
+                break
+    if w is not None:
+        ctx.stat("deep:selfcheck_disagreement")
+        ctx.corr_diff("deep-closed-form", dict(automaton=MD.expr(spec), spec=spec, word=MD.short(w)),
+                      dict(accepts_input=call(lambda: src.accepts_input(w))), dict(closed_form_member=L.member(w)))
+        return False
+    return True
+
+
+def deep_stop(ctx: Ctx, fails0: int) -> bool:
+    from harness import dfa_query_lib as QL
+    return QL.TIMEOUTS >= 2 or ctx.n_prop_fails - fails0 >= 3
+
+
+@guarded
+def check_deep(ctx: Ctx, spec: dict, calls, fails0: int):
+    from harness import dfa_min_deep as MD
+    if deep_stop(ctx, fails0):
+        ctx.stat("deep:skipped_after_failures")
+        return
+    b = call(lambda: MD.build(spec))
+    if b[0] == "err":
+        # whether the constructors work at such sizes is C15's / C01's statement
+        ctx.stat("deep:construction_raised")
+        ctx.corr_diff("deep-construction", dict(automaton=MD.expr(spec), spec=spec), f"raised {b[1]}", "an automaton")
+        return
+    src = b[1]
+    ctx.stat(f"deep:source:{spec['kind']}")
+    ctx.stat(f"deep:states:{len(src.states) // 500 * 500}+")
+    ctx.stat("deep:closed_form_oracle_no_model_round_trip")
+    if not deep_source_selfcheck(ctx, spec, src):
+        return
+    L = MD.lang_of(spec)
+    if ctx.stats.get(f"deep:source:{spec['kind']}", 0) == 1:
+        ctx.sample(dict(deep_source=MD.expr(spec), states=len(src.states), language=L.describe(),
+                        closed_form_index=dict(zip(("classes", "live"), L.index())), calls=[deep_show_call(c) for c in calls]))
+    Bs = {}
+    for i, c in enumerate(calls):
+        B = None
+        if c.get("B") is not None:
+            key = json.dumps(c["B"], sort_keys=True)
+            if key not in Bs:
+                Bs[key] = MD.build(c["B"])
+                if not deep_source_selfcheck(ctx, c["B"], Bs[key]):
+                    return
+            B = Bs[key]
+        ctx.stat(f"deep_op:{c['op']}:retain={int(c['retain'])}")
+        res = deep_invoke(src, B, c)
+        msg = deep_judge_result(spec, c, src, res, ctx.rng)
+        cls, live = deep_result_lang(spec, c).index()
+        merged = res[0] == "ok" and isinstance(res[1], DFA) and len(res[1].states) < len(src.states)
+        if merged:
+            ctx.stat("deep:merged_or_removed_states")
+        ctx.case(("deep", json.dumps(spec, sort_keys=True), json.dumps(c, sort_keys=True)) if msg is None and cls >= 3 else None)
+        if msg is None:
+            continue
+        # re-confirm on newly built objects: the call alone, else after the calls that preceded it on this object
+        small = None
+        for cand in ([c], list(calls[: i + 1])):
+            r2 = deep_run_calls(spec, cand, ctx.rng)
+            if r2 is not None and r2[0] == len(cand) - 1:
+                small, msg = cand, r2[1]
+                break
+        if small is None:
+            ctx.stat("deep:failure_not_reproduced")
+            ctx.corr_diff("deep-not-reproduced", dict(automaton=MD.expr(spec), spec=spec, calls=list(calls[: i + 1])), msg,
+                          "the same verdict on a rebuilt object")
+            continue
+        what = deep_what(spec, small, msg)
+        ctx.prop_fail(what, dict(op="deep", automaton=MD.expr(spec), spec=spec, calls=small, what=what))
+        if deep_stop(ctx, fails0):
+            return
+
+
+@guarded
+def deep_small_twin(ctx: Ctx, spec: dict, calls):
+    """The same shape at ≤ 12 states: every call judged by the closed form AND by the module's brute-force oracles
+    (do_minify / via_op_case).  The two must agree — on an answer the brute-force oracles accept the closed form
+    must not complain (InfraError: the closed form is wrong), and what they reject is reported by them."""
+    from harness import dfa_min_deep as MD
+    rng = ctx.rng
+    tw = MD.shrink(spec, rng)
+    src = MD.build(tw)
+    ctx.stat("deep:small_twin")
+    if not deep_source_selfcheck(ctx, tw, src):
+        raise InfraError(f"C05 deep family: closed form and built object disagree on the small twin {MD.expr(tw)}")
+    if isinstance(src, DFA):
+        got = langoracle.nerode_index(src, src.input_symbols)
+        if got != MD.lang_of(tw).index():
+            raise InfraError(f"C05 deep family: closed-form index {MD.lang_of(tw).index()} ≠ brute-force Moore refinement {got} "
+                             f"on {MD.expr(tw)}")
+    seen = set()
+    for c in calls:
+        c = dict(c)
+        if c.get("B") is not None:
+            c["B"] = MD.shrink(c["B"], rng)
+        key = (c["op"], c["retain"])
+        if key in seen:
+            continue
+        seen.add(key)
+        B = MD.build(c["B"]) if c.get("B") is not None else None
+        before = ctx.n_prop_fails
+        if c["op"] == "minify":
+            do_minify(ctx, src, c["retain"], "deep_small_twin")
+        elif c["op"] == "from_nfa":
+            via_op_case(ctx, None, None, "from_nfa", c["retain"], N=src)
+        else:
+            via_op_case(ctx, src, B, c["op"], c["retain"])
+        ctx.stat("deep:small_twin_calls_judged_by_both_oracles")
+        res = deep_invoke(src, B, c)
+        msg = deep_judge_result(tw, c, src, res, rng)
+        if res[0] == "ok" and isinstance(res[1], DFA):
+            got = langoracle.nerode_index(res[1], res[1].input_symbols)
+            if ctx.n_prop_fails == before and got != deep_result_lang(tw, c).index():
+                raise InfraError(f"C05 deep family: closed-form index {deep_result_lang(tw, c).index()} of the result language ≠ "
+                                 f"brute force {got}: {deep_show_call(c)} on {MD.expr(tw)}")
+        if msg is not None:
+            if ctx.n_prop_fails == before:
+                raise InfraError(f"C05 deep family: the closed-form judge complains ({msg}) about an answer the brute-force "
+                                 f"oracles accept: {deep_show_call(c)} on {MD.expr(tw)}")
+            return
+
+
+def deep_plan(rng, thorough: bool):
+    """[(spec, calls)] — sizes where the real code is linear (measured on the unchanged tree: every call ≤ 0.1 s at 3000 states)."""
+    def calls(ops, B=None):
+        out = []
+        for op, r in ops:
+            c = dict(op=op, retain=r)
+            if op in DEEP_BOOL:
+                c["B"] = B
+            out.append(c)
+        return out
+    both = lambda op: [(op, False), (op, True)]  # noqa: E731
+    unary = both("minify") + both("to_partial") + both("complement")
+    plan = []
+    # D1: of_length, bounded window: a complete chain of 1100–1500 states + dead state; Boolean operations with a second chain
+    hi = rng.randint(1100, 1500)
+    lo = hi - rng.choice([0, 1, 7, 40])
+    hi2 = rng.randint(1100, hi + 200)
+    B1 = dict(kind="of_length", lo=max(0, hi2 - rng.randint(0, 300)), hi=hi2)
+    bools = [(op, rng.random() < 0.5) for op in DEEP_BOOL]
+    plan.append((dict(kind="of_length", lo=lo, hi=hi), calls(unary + bools, B1)))
+    # D2: of_length without upper bound: a chain of 2000–3000 states ending in a final self-loop (no dead class at all)
+    plan.append((dict(kind="of_length", lo=rng.randint(2000, 3000), hi=None),
+                 calls(both("minify") + [("to_partial", rng.random() < 0.5), ("complement", rng.random() < 0.5)])))
+    # D3: from_finite_language with a 1500-symbol word and a one-letter word (partial, minimal: nothing may be merged)
+    unit = rng.choice(["ab", "a", "aab", "ba"])
+    reps = 1500 // len(unit)
+    plan.append((dict(kind="finite_language", words=[[unit, reps, ""], ["b", 1, ""]]), calls(unary)))
+    # D4: PARTIAL chain, every state doubled, sparse final positions, followed by a chain of 150–400 dead positions
+    n = rng.randint(1100, 1400)
+    fin = sorted({n} | {rng.randrange(n + 1) for _ in range(rng.randint(0, 6))})
+    B4 = dict(kind="doubled", n=rng.randint(1100, 1400), finals=None, dead=0, complete=False)
+    B4["finals"] = sorted({B4["n"]} | {rng.randrange(B4["n"] + 1) for _ in range(3)} | {p for p in fin[:2] if p <= B4["n"]})
+    plan.append((dict(kind="doubled", n=n, finals=fin, dead=rng.randint(150, 400), complete=False),
+                 calls(unary + [(op, rng.random() < 0.5) for op in DEEP_BOOL], B4)))
+    # D5: COMPLETE chain, every state doubled, then 1100–1500 dead positions and a trap: all of them ONE class
+    n = rng.randint(200, 400)
+    fin = sorted({n} | {rng.randrange(n + 1) for _ in range(rng.randint(0, 4))})
+    plan.append((dict(kind="doubled", n=n, finals=fin, dead=rng.randint(1100, 1500 - n // 2), complete=True),
+                 calls(unary + [(rng.choice(list(DEEP_BOOL)), True)], B1)))
+    # D6: 2–3 copies of a cycle of 1100–1400 states; 40 copies of a cycle of 60
+    plan.append((dict(kind="cycles", k=rng.randint(2, 3), c=rng.randint(1100, 1400) if not thorough else rng.randint(1100, 3000)),
+                 calls(unary)))
+    plan.append((dict(kind="cycles", k=rng.randint(30, 50), c=rng.randint(50, 60)), calls(both("minify") + [("complement", True)])))
+    # D7: NFA with two states per position: DFA.from_nfa(minify=True)
+    n = rng.randint(1100, 1400)
+    plan.append((dict(kind="nfa_doubled", n=n, finals=sorted({n, rng.randrange(n)})), calls(both("from_nfa"))))
+    if thorough:
+        for _ in range(6):
+            n = rng.randint(1100, 2900)
+            fin = sorted({n} | {rng.randrange(n + 1) for _ in range(rng.randint(0, 8))})
+            plan.append((dict(kind="doubled", n=n, finals=fin, dead=rng.choice([0, 5, 1200]), complete=rng.random() < 0.5),
+                         calls(unary + [(op, rng.random() < 0.5) for op in DEEP_BOOL],
+                               dict(kind="of_length", lo=rng.randint(0, n), hi=rng.choice([None, n + rng.randint(0, 50)])))))
+    return plan
+
+
+def deep_family(ctx: Ctx):
+    import time
+    from harness import dfa_query_lib as QL
+    QL.TIMEOUTS = 0
+    t0 = time.time()
+    fails0 = ctx.n_prop_fails
+    plan = deep_plan(ctx.rng, ctx.thorough())
+    for spec, calls in plan:
+        deep_small_twin(ctx, spec, calls)
+    for spec, calls in plan:
+        check_deep(ctx, spec, calls, fails0)
+    ctx.stat("deep:family_wall_seconds_x10", int(10 * (time.time() - t0)))
+    ops = {k.split(":")[1] for k in ctx.stats if k.startswith("deep_op:")}
+    missing = {"minify", "to_partial", "complement", "union", "inter", "diff", "symm", "from_nfa"} - ops
+    if missing and ctx.n_prop_fails == fails0 and not ctx.stats.get("deep:skipped_after_failures"):
+        ctx.corr_diff("deep-coverage", dict(missing=sorted(missing)), "operations not exercised on a deep instance", "all eight")
+
+
 def run(ctx: Ctx):
     rng = ctx.rng
+    deep_family(ctx)
     run_part_refine(ctx, ctx.budget(600, 20000))
     run_sequences(ctx, ctx.budget(500, 10000))
     run_mutable_option(ctx, ctx.budget(600, 12000))
@@ -662,6 +1084,15 @@ def replay(ctx: Ctx, path: str) -> int:
     env = {"DFA": DFA, "frozenset": frozenset}
     if rp.get("op") == "part_refine":
         print("replay: PART_REFINE cases are correspondence-only (model vs. PartitionRefinement); re-run by seed")
+        return 0
+    if rp.get("op") == "deep":
+        import random
+        r = deep_run_calls(rp["spec"], rp["calls"], random.Random(0))
+        if r is not None and r[0] == len(rp["calls"]) - 1:
+            print(f"VIOLATION property=C05 replay={path}")
+            print("  " + deep_what(rp["spec"], rp["calls"], r[1]))
+            return 1
+        print("replay: property holds on this input now")
         return 0
     if rp.get("op") == "chain":
         from automata.fa.nfa import NFA
